@@ -235,6 +235,11 @@ func derivedAtom(fn string, t Text) Text {
 // evidence as trusted).
 func (e *Exec) model(s *State, c *ssa.Call, fn *ssa.Function, full string, args []Val) ([]Out, bool) {
 	ret := func(vs ...Val) ([]Out, bool) { return []Out{{St: s, Rets: vs}}, true }
+	// instances of generic functions: drop the type arguments; x/exp/slices is slices
+	if i := strings.Index(full, "["); i > 0 {
+		full = full[:i]
+	}
+	full = strings.Replace(full, "golang.org/x/exp/slices.", "slices.", 1)
 	switch full {
 	case "fmt.Sprintf":
 		return ret(sprintf(s, concreteArg(args[0], "format"), sliceElems(s, args[1])))
@@ -431,7 +436,34 @@ func (e *Exec) model(s *State, c *ssa.Call, fn *ssa.Function, full string, args 
 		}
 		return ret(Iface{Dyn: errDynType, V: Opaque{Tag: "rtype:" + types.TypeString(iv.Dyn, nil)}})
 	case "dario.cat/mergo.WithTransformers":
-		return ret(Closure{})
+		return ret(Opaque{Tag: "mergo.WithTransformers"})
+	case "strings.TrimSuffix", "strings.TrimPrefix":
+		t := textArg(args[0])
+		as, ok1 := t.concrete()
+		bs, ok2 := textArg(args[1]).concrete()
+		if ok1 && ok2 {
+			if strings.HasSuffix(full, "TrimSuffix") {
+				return ret(lit(strings.TrimSuffix(as, bs)))
+			}
+			return ret(lit(strings.TrimPrefix(as, bs)))
+		}
+		if ok2 && bs == "" {
+			return ret(t)
+		}
+		// an unknown string, a function of the arguments; nothing says it equals
+		// its argument
+		return ret(atom(pureAtomName(full[strings.LastIndex(full, ".")+1:], []string{t.String(), textArg(args[1]).String()})))
+	case "slices.Contains":
+		sl, ok := args[0].(SliceV)
+		if !ok {
+			unsupported("slices.Contains on %T", args[0])
+		}
+		ctx := &EvalCtx{sp: e.w.specs, env: map[string]Val{}, st: s, ex: e}
+		var alts []*T
+		for k := 0; k < sl.Len_; k++ {
+			alts = append(alts, ctx.valEq(&Node{Pos: "slices.Contains"}, s.load(sl.Arr.sub(sl.Lo+k)), args[1]))
+		}
+		return ret(mkOr(alts...))
 	case "dario.cat/mergo.Merge":
 		// Assumed (external): Merge(dst, src, ...) may write to any memory reachable
 		// from dst through pointers and maps (it merges maps in place and recurses
@@ -442,6 +474,26 @@ func (e *Exec) model(s *State, c *ssa.Call, fn *ssa.Function, full string, args 
 		// appended element-wise — so after the call dst may hold pointers to
 		// everything src's fields, map values and slice elements point to. A later
 		// Merge into the same dst writes through them.
+		// the options of this call, by name (merge_options() in contracts)
+		if len(args) > 2 {
+			if sl, ok := args[2].(SliceV); ok {
+				var names []string
+				for k := 0; k < sl.Len_; k++ {
+					switch o := s.load(sl.Arr.sub(sl.Lo + k)).(type) {
+					case Closure:
+						if o.Fn != nil {
+							names = append(names, o.Fn.Name())
+						}
+					case Opaque:
+						names = append(names, strings.TrimPrefix(o.Tag, "mergo."))
+					default:
+						names = append(names, fmt.Sprintf("%T", o))
+					}
+				}
+				sort.Strings(names)
+				s.Ghost["mergo-opts"] = lit(strings.Join(names, ","))
+			}
+		}
 		seen := map[int]bool{}
 		e.writeReachable(s, args[0], seen, "written-by:mergo.Merge")
 		unwrap := func(v Val) Val {
